@@ -682,8 +682,10 @@ def b_report(ctx, recs, r):
     ctx.note("recorded_runs_rejected", rejected)
 
 
-def _keep(ctx, k, v, cap=8):
-    lst = ctx.extra.setdefault(k, [])
+def _keep(ctx, k, v, cap=3):
+    """Keep a few examples per kind of drift."""
+    lst = ctx.extra.setdefault(k, {}).setdefault(str(v.get("key", "")).split(":")[0] if not str(v.get("key", "")).startswith("B:")
+                                                 else v["key"], [])
     if len(lst) < cap:
         lst.append(v)
 
@@ -859,6 +861,38 @@ def run(ctx):
         "outcomes the documentation does not define (named column absent without a covering flag, name clashes, values of "
         "another kind) are 'any': only purity and repeatability are checked there",
         "one case in three is passed to run_operations as a file path (bytes compared before/after), the others as DataFrame"]
+
+
+def selftest(ctx):
+    """Show that the binding can fail: a corrupted expectation (A) and a corrupted recording (B) are both rejected."""
+    import hed  # noqa: F401
+    from hed.tools.remodeling.remodeler_validator import RemodelerValidator
+    _G["work"] = ctx.work
+    _G["validator"] = RemodelerValidator()
+    os.makedirs(os.path.join(ctx.work, "st"), exist_ok=True)
+    op = _w({"op": "remove_columns", "column_names": ["b"], "ignore_missing": True})
+    tab = {"cols": ["a", "b"], "rows": [{"a": "x", "b": NA}, {"a": "1", "b": "y"}]}
+    good = {"k": "ok", "cols": ["a"], "rows": [{"a": "x"}, {"a": "1"}], "e": "", "d": False, "u": False}
+    bad = dict(good, rows=[{"a": "x"}, {"a": "2"}])
+    ok = True
+    for exp, want in ((good, 0), (bad, 1)):
+        j = {"ops": [op], "tabs": [tab], "order": [1, 1], "exp": [exp, exp], "valid": True, "bad": []}
+        F, _ = check_concrete(concretise(j, "df"), os.path.join(ctx.work, "st"))
+        n = len([1 for lvl, _, _ in F if lvl == "violation"])
+        print("selftest A: expectation %s -> %d violation(s)" % ("faithful" if not want else "corrupted", n))
+        ok = ok and (n > 0) == bool(want)
+    rec, conc, side = _record_job({"ops": [op], "tabs": [tab], "order": [1, 1]})
+    rec2 = json.loads(json.dumps(rec))
+    rec2["obs"][1]["rows"][0]["a"] = "corrupted"
+    r = b_judge(ctx, [(rec, conc, side), (rec2, conc, side)], os.path.join(ctx.work, "tlcB"))
+    acc = set(int(m.group(2)) for m in _RE_VERDICT.finditer(r.stdout) if m.group(1) == "ACCEPT")
+    rej = set(int(m.group(2)) for m in _RE_VERDICT.finditer(r.stdout) if m.group(1) == "REJECT")
+    print("selftest B: faithful recording %s, corrupted recording %s" % (
+        "accepted" if 1 in acc else "REJECTED", "rejected" if 2 in rej else "ACCEPTED"))
+    ok = ok and 1 in acc and 2 in rej and 1 not in rej
+    shutil.rmtree(ctx.work, ignore_errors=True)
+    print("selftest " + ("passed" if ok else "FAILED"))
+    return 0 if ok else 1
 
 
 def replay(obj):
